@@ -296,6 +296,14 @@ Lemma exec_S f c s :
       | _ => Fail Stuck
       end
   | SRaise => Fail Revert
+  | SAssertR e id =>
+      do v, s1 <- eval f e s;
+      match v with
+      | VBool true => ret SNormal s1
+      | VBool false => Fail (RevertMsg id)
+      | _ => Fail Stuck
+      end
+  | SRaiseR id => Fail (RevertMsg id)
   | SReturn None => ret (SRet (VList [])) s
   | SReturn (Some e) =>
       do v, s1 <- eval f e s;
